@@ -193,7 +193,7 @@ def shard(part, shard_i, nshards, tier, seed, deadline):
     ilv.install()
     for i, h in enumerate(harnesses(tier)):
         if (i + seed) % nshards == shard_i:
-            ilvrun.explore_all(part, [h], 0, 1, PB_of(tier, h), 0, deadline, horizon=WAIT + 3.0, coarse_pb=2 if (tier != "quick" and len(h.seqs) == 2 and h.seqs[0][-1] == "C" and h.lines) else None)
+            ilvrun.explore_all(part, [h], 0, 1, PB_of(tier, h), 0, deadline, horizon=WAIT + 3.0, coarse_pb=2 if (tier != "quick" and h.lines and (h.op, h.seqs) in DEEP) else None)
 
 
 def run_part(ctx):
